@@ -153,6 +153,13 @@ def make_shape(rnd, tmp, k, focus=False):
         with open(sp, 'w', encoding='utf-8', newline='') as f:
             f.write(txt.rstrip('\n') + rnd.choice(['\n\n\n', '\n\n\n\n', '', '\n\n', '\n   \n\n']))
         shape['settings_ending'] = True
+    if not shape.get('crlf_settings') and rnd.random() < (.3 if focus else .12):
+        # a settings file saved by an editor that writes a UTF-8 byte-order mark: those three bytes are the user's too
+        sp = os.path.join(cfg, 'settings.yaml')
+        raw = open(sp, 'rb').read()
+        with open(sp, 'wb') as f:
+            f.write(b'\xef\xbb\xbf' + raw)
+        shape['bom_settings'] = True
     if rnd.random() < .3:
         # the user's own .gitignore (patterns spelled their way, or statements tracked on purpose)
         with open(os.path.join(base, '.gitignore'), 'w') as f:
@@ -195,6 +202,10 @@ def commands(rnd, b, root, cfg, base, shape):
     if shape.get('focus'):
         # migration-focused sequence: the first command is a real migration of the legacy CSV (init or up --migrate)
         seq = [rnd.choice([c for c in pool if c[0] in ('init', 'migrate')])] + seq[:2]
+        if rnd.random() < .4:
+            # ... after which the user puts the CSV back beside the new rules file (restored from version control, or copied from the backup):
+            # the commands that follow are still read-only / never move it without being asked
+            seq = seq[:1] + [('harness-restore-csv', [])] + [rnd.choice([c for c in pool if c[0] in ('up', 'explain', 'discover', 'diag')]) for _ in range(2)]
     return cwd, seq
 
 
@@ -311,6 +322,12 @@ def judge(rec, rnd, tmp, k, log, focus=False):
     cfg_rel = os.path.relpath(cfg, root)
     prev = None
     for kind, args in seq:
+        if kind == 'harness-restore-csv':
+            baks = sorted(f for f in os.listdir(cfg) if f.startswith('merchant_categories.csv.bak'))
+            if baks and not os.path.exists(os.path.join(cfg, 'merchant_categories.csv')):
+                shutil.copy(os.path.join(cfg, baks[-1]), os.path.join(cfg, 'merchant_categories.csv'))
+                rec.count('csv_restored_beside_migrated_rules')
+            continue
         before = snapshot(root)
         settings_old = read(root, os.path.join(cfg_rel, 'settings.yaml'))
         csv_path = os.path.join(cfg, 'merchant_categories.csv')
